@@ -861,3 +861,229 @@ func textScannerRuleSSA(r *Run, rule string) {
 }
 
 var _ = types.Typ
+
+// stringScannerRuleSSA (C02.R6): the scanners of quoted strings never step over
+// a closing quote unexamined. Decided on the paths of each scanner (its loop
+// explored for one iteration, package helpers walked in line, the scanner's
+// constant arguments -- a quote parameter -- bound as at its call in the token
+// function): every cursor movement except the first (which steps over the
+// opening quote, or over a byte the previous iteration examined) steps over a
+// byte that this path knows is not the closing quote -- or, in the
+// double-quoted scanner only, over a quote directly behind a backslash that
+// was itself stepped over (the \" escape); every way round the loop has found
+// the current byte not to be the closing quote; and the back-quoted scanner
+// returns the bytes of the input as they are, the double-quoted one after
+// replacing \" by " and nothing else.
+func stringScannerRuleSSA(r *Run, rule string) {
+	w := r.W
+	lm := w.lexSSA()
+	if !lm.ok() {
+		r.Lost(rule, lm.why())
+		return
+	}
+	for _, q := range []byte{'"', '`'} {
+		kind := map[byte]string{'"': "double-quoted", '`': "back-quoted"}[q]
+		var scan *ssa.Function
+		var site *ssa.Call
+		var sitePath *pwPath
+		for _, tp := range lm.tokenPaths(lm.inside, q, true) {
+			if tp.litScanFn == nil || tp.p == nil {
+				continue
+			}
+			for _, ev := range tp.p.events {
+				if c, ok := ev.(*ssa.Call); ok && c.Call.StaticCallee() == tp.litScanFn {
+					scan, site, sitePath = tp.litScanFn, c, tp.p
+				}
+			}
+		}
+		if scan == nil {
+			r.Lost(rule, "scanner of "+kind+" strings")
+			continue
+		}
+		bound := map[*ssa.Parameter]constant.Value{}
+		for i, prm := range scan.Params {
+			if i < len(site.Call.Args) {
+				if c, ok := sitePath.constOf(site.Call.Args[i]); ok {
+					bound[prm] = c
+				}
+			}
+		}
+		seed := func(p *pwPath, v ssa.Value) (constant.Value, bool) {
+			if prm, ok := v.(*ssa.Parameter); ok {
+				c, ok := bound[prm]
+				return c, ok
+			}
+			return nil, false
+		}
+		pw := &pathWalker{unroll1: true, maxPaths: 20000, seed: seed, inline: func(caller, callee *ssa.Function) bool {
+			return callee.Pkg == scan.Pkg && callee != lm.readChar && callee != lm.peekChar
+		}}
+		pw.walk(scan)
+		name := ssaName(scan)
+		if pw.overflow || len(pw.paths) == 0 {
+			r.Lost(rule, "paths of the scanner of "+kind+" strings")
+			continue
+		}
+		var bads []string
+		addBad := func(s string) {
+			for _, b := range bads {
+				if b == s {
+					return
+				}
+			}
+			bads = append(bads, s)
+		}
+		nReads, nRound, nRet := 0, 0, 0
+		for _, p := range pw.paths {
+			var reads []int
+			for ei, ev := range p.events {
+				if c, ok := ev.(*ssa.Call); ok && c.Call.StaticCallee() == lm.readChar {
+					reads = append(reads, ei)
+				}
+			}
+			readCallAt := func(i int) int { return reads[i] }
+			// what the decisions in a window say about the current byte and the one behind it
+			type know struct {
+				isQuote, notQuote, isBackslash bool
+				nextIsQuote                    bool
+			}
+			evIndex := map[ssa.Instruction]int{}
+			for i, ev := range p.events {
+				evIndex[ev] = i
+			}
+			window := func(lo, hi int, after int) know {
+				var k know
+				for _, d := range p.decisions[lo:hi] {
+					bo, ok := d.cond.(*ssa.BinOp)
+					if !ok || (bo.Op != token.EQL && bo.Op != token.NEQ) {
+						continue
+					}
+					eq := d.truth == (bo.Op == token.EQL)
+					x, y := p.resolve(bo.X), p.resolve(bo.Y)
+					cv, okc := p.constOf(y)
+					if !okc {
+						cv, okc = p.constOf(x)
+						x = y
+					}
+					if !okc || cv.Kind() != constant.Int {
+						continue
+					}
+					n, _ := constant.Int64Val(cv)
+					switch {
+					case lm.isChLoad(p, x):
+						if after >= 0 && p.loadAt[x] <= after {
+							continue // a byte that was loaded before the cursor moved
+						}
+						if n == int64(q) {
+							k.isQuote, k.notQuote = k.isQuote || eq, k.notQuote || !eq
+						} else if eq {
+							k.notQuote = true
+							if n == '\\' {
+								k.isBackslash = true
+							}
+						}
+					default:
+						if call, ok := x.(*ssa.Call); ok && call.Call.StaticCallee() == lm.peekChar {
+							if after >= 0 && evIndex[call] <= after {
+								continue
+							}
+							if n == int64(q) && eq {
+								k.nextIsQuote = true
+							}
+						}
+					}
+				}
+				return k
+			}
+			prev := know{}
+			prevLicensedBackslash := false
+			for i := range reads {
+				nReads++
+				if i == 0 {
+					// the first movement: over the opening quote / the byte the previous iteration examined
+					prev = window(0, p.evDecided[reads[0]], -1)
+					prevLicensedBackslash = false
+					continue
+				}
+				k := window(p.evDecided[reads[i-1]], p.evDecided[reads[i]], readCallAt(i-1))
+				// what an earlier look-ahead said about this byte
+				carriedQuote := prev.nextIsQuote
+				switch {
+				case k.notQuote && !carriedQuote:
+					prevLicensedBackslash = k.isBackslash
+				case q == '"' && carriedQuote && prevLicensedBackslash && !k.notQuote:
+					prevLicensedBackslash = false // the escaped quote
+				default:
+					if q == '`' {
+						addBad("a byte that may be the closing back-quote is stepped over (back-quoted strings are taken raw: nothing escapes the closing quote)")
+					} else {
+						addBad("a byte that may be the closing quote is stepped over without being the quote of a \\\" escape")
+					}
+					prevLicensedBackslash = false
+				}
+				prev = k
+			}
+			if len(reads) > 0 && p.revisits > 0 {
+				// round the loop: the byte under the cursor was found not to be the closing quote
+				nRound++
+				last := len(reads) - 1
+				k := window(p.evDecided[reads[last]], len(p.decisions), readCallAt(last))
+				// (the forced exit decision of the unrolling comes after the revisit; the window may include it: it is about ch == 0)
+				if !k.notQuote {
+					addBad("the loop goes round without having compared the current byte with the closing quote")
+				}
+			}
+			if p.end == "return" && len(p.results) == 1 {
+				nRet++
+				res := p.resolve(p.results[0])
+				isInputSlice := func(v ssa.Value) bool {
+					sl, ok := p.resolve(v).(*ssa.Slice)
+					return ok && lm.isFieldLoad(p, p.resolve(sl.X), lm.inputIdx)
+				}
+				switch {
+				case isInputSlice(res):
+					if q == '"' {
+						addBad("the double-quoted scanner returns the raw bytes: \\\" must stand for a quote")
+					}
+				default:
+					call, ok := res.(*ssa.Call)
+					pkg, fname := "", ""
+					if ok {
+						pkg, fname = staticCalleeName(call)
+					}
+					isReplace := ok && pkg == "strings" && (fname == "Replace" || fname == "ReplaceAll") && len(call.Call.Args) >= 3 && isInputSlice(call.Call.Args[0])
+					if isReplace {
+						from, ok1 := p.constOf(call.Call.Args[1])
+						to, ok2 := p.constOf(call.Call.Args[2])
+						if !ok1 || !ok2 || from.Kind() != constant.String || to.Kind() != constant.String || constant.StringVal(from) != "\\\"" || constant.StringVal(to) != "\"" {
+							isReplace = false
+						}
+						if fname == "Replace" && len(call.Call.Args) == 4 {
+							if n, ok := p.constOf(call.Call.Args[3]); !ok || constant.Sign(n) >= 0 {
+								isReplace = false
+							}
+						}
+					}
+					switch {
+					case isReplace && q == '`':
+						addBad("the back-quoted scanner rewrites the bytes between the quotes (back-quoted strings are taken raw)")
+					case !isReplace:
+						addBad("the scanner's result is not the input between the quotes (raw for back-quoted strings, with \\\" replaced by \" for double-quoted ones)")
+					}
+				}
+			}
+		}
+		if nReads == 0 || nRound == 0 || nRet == 0 {
+			r.Lost(rule, fmt.Sprintf("cursor movements / loop / result of the scanner of %s strings (%d, %d, %d)", kind, nReads, nRound, nRet))
+			continue
+		}
+		con := "scanner of " + kind + " strings"
+		if len(bads) > 0 {
+			sort.Strings(bads)
+			r.Bad(rule, name, con, w.Pos(scan.Pos()), strings.Join(bads, "; "))
+		} else {
+			r.Ok(rule, name, con, w.Pos(scan.Pos()), fmt.Sprintf("%d path(s): no closing quote is stepped over unexamined; result is the input between the quotes", len(pw.paths)))
+		}
+	}
+}
+
